@@ -306,7 +306,23 @@ def extract_fn(repo, d, template_text):
         # the signature never contains `{`; re-split at the first code-level brace
         sig, body = _resplit(whole)
         tr.append({"kind": kind, "old": rustscan.norm_ws(old)[:200], "new": rustscan.norm_ws(new)[:300]})
+    # ordinal anchors first (positions computed on the body before any ghost text is inserted)
+    ords = [p for p in d.get("proof", []) if p["where"].startswith(("before-stmt", "after-stmt"))]
+    if ords:
+        spans = _top_level_stmts(body)
+        ins = []
+        for p in ords:
+            n = int(p["anchor"].strip() or p["where"].split(":")[-1]) if False else p["n"]
+            if n < 1 or n > len(spans):
+                raise ExtractError(f"lost anchor: statement #{n} not found ({len(spans)} top-level statements)")
+            pos = spans[n - 1][0] if p["where"].startswith("before") else spans[n - 1][1]
+            ins.append((pos, p["text"]))
+            tr.append({"kind": "ins-proof", "where": p["where"], "stmt": n})
+        for pos, text in sorted(ins, key=lambda x: -x[0]):
+            body = body[:pos] + "\n        " + text.rstrip() + "\n        " + body[pos:]
     for p in d.get("proof", []):
+        if p in ords:
+            continue
         anchor = p["anchor"].strip()
         idx = _once(body, anchor, "PROOF anchor")
         if p["where"] == "before":
@@ -345,6 +361,46 @@ def extract_fn(repo, d, template_text):
         tr.append({"kind": "ins-contract"})
     gen = sig + "\n" + (d.get("spec", "").rstrip() + "\n" if d.get("spec") else "") + body + "\n"
     return gen, rec
+
+
+def _top_level_stmts(body):
+    """spans (start, end) of the top-level statements of a fn body `{ ... }` (end is after the `;`)"""
+    mask = rustscan.code_mask(body)
+    assert body[0] == "{"
+    spans = []
+    depth = 0
+    start = None
+    i = 1
+    n = len(body) - 1
+    while i < n:
+        ch = body[i]
+        if start is None and not ch.isspace() and not (not mask[i]):
+            start = i
+        if start is None and not mask[i]:
+            # comments between statements are skipped
+            i += 1
+            continue
+        if mask[i]:
+            if ch in "([{":
+                depth += 1
+            elif ch in ")]}":
+                depth -= 1
+                if ch == "}" and depth == 0 and start is not None:
+                    # block-like statement (if/for/while/match/loop) ends here unless followed by else / method call / `;`
+                    j = i + 1
+                    while j < n and body[j].isspace():
+                        j += 1
+                    head = body[start:start + 6]
+                    if re.match(r"(if|for|while|loop|match|unsafe)\b", head) and not body.startswith("else", j) and (j >= n or body[j] not in ".;?"):
+                        spans.append((start, i + 1))
+                        start = None
+            elif ch == ";" and depth == 0 and start is not None:
+                spans.append((start, i + 1))
+                start = None
+        i += 1
+    if start is not None:
+        spans.append((start, n))
+    return spans
 
 
 def _resplit(whole):
@@ -396,7 +452,18 @@ def extract_type(repo, d):
     except ValueError as e:
         raise ExtractError(str(e))
     if it is None:
-        raise ExtractError(f"lost anchor: type {d['name']} not found in {d['file']}")
+        # tuple struct / type alias: one line ending in `;`
+        m = [x for x in re.finditer(r"^(?:pub(?:\([a-z:_ ]+\))?\s+)?(?:struct|type)\s+%s\b[^;{]*;" % re.escape(d["name"]), src, re.M)]
+        if len(m) != 1:
+            raise ExtractError(f"lost anchor: type {d['name']} not found in {d['file']}")
+        text = m[0].group(0)
+        tr = []
+        if d.get("vis") == "pub":
+            text = re.sub(r"^(pub(\([a-z:_ ]+\))?\s+)?", "pub ", text)
+            text = re.sub(r"\((?!pub)", "(pub ", text, count=1) if text.startswith("pub struct") else text
+            tr.append({"kind": "vis", "what": "item and fields made pub"})
+        rec = {"file": d["file"], "type": d["name"], "sha256": common.sha256_text(m[0].group(0)), "transformations": tr}
+        return text + "\n", rec, []
     text, dropped = rustscan.strip_attrs_and_docs(it.text)
     derives = [l for l in _preceding_attr_lines(src, it.start) if l.startswith("#[derive")]
     tr = [{"kind": "drop-attr", "dropped": derives + dropped}]
@@ -484,6 +551,10 @@ def parse_template(text):
                 elif s2.startswith("//@SUBST"):
                     flush()
                     cur = ("subst_old", s2.split()[1])
+                elif s2.startswith("//@PROOF") and s2.split()[1] in ("before-stmt", "after-stmt"):
+                    flush()
+                    d["proof"].append({"where": s2.split()[1], "n": int(s2.split()[2]), "anchor": ""})
+                    cur = ("proof_text",)
                 elif s2.startswith("//@PROOF"):
                     flush()
                     cur = ("proof_anchor", s2.split()[1])
@@ -677,7 +748,7 @@ class Unit:
         try:
             ctext, _, span = self.generate(repo, with_canary=True)
             if span:
-                c = self._verus(ctext, ".canary")
+                c = self._verus(ctext, "_canary")
                 hit = [e for e in c["errors"] if span[0] <= e["line"] <= span[1]
                        and any(p in e["msg"] for p in PROOF_FAILURE_PATTERNS)]
                 res.append(mk(f"{self.prop}.{self.name}.canary", "PROVED-U",
